@@ -20,7 +20,7 @@ COPY_POST_COMMON = [
 
 contract(
     "liquid2.context:RenderContext.copy",
-    props=["C07", "C06"],
+    props=["C07", "C06", "C08", "C01"],
     params={"self": CTX(), "token": Any_, "namespace": Any_, "template": Opt(TEMPLATE),
             "disabled_tags": Union(NoneT, Opaque(lambda ex, n: __import__("pyvc.values", fromlist=["Tagged"]).Tagged("set", ("include",)), "{'include'}")),
             "carry_loop_iterations": Union(TrueT, FalseT), "block_scope": Union(TrueT, FalseT)},
@@ -28,11 +28,13 @@ contract(
     obj_protocol="mapping",
     post=COPY_POST_COMMON + [
         # isolated copy (render / call): the globals chain is the arguments over the *global* data only
-        # (an empty chain is replaced by an empty dict by RenderContext.__init__: same lookups)
-        "implies(not block_scope and isinstance(result.globals, ReadOnlyChainMap), len(result.globals._maps) == 2 and result.globals._maps[0] == namespace and result.globals._maps[1] == self.globals)",
-        "implies(not block_scope and not isinstance(result.globals, ReadOnlyChainMap), len(result.globals) == 0 and len(namespace) == 0 and len(self.globals) == 0)",
+        # always *the caller's namespace object* (the render tag fills it after the copy), never a replacement for an empty one
+        "implies(not block_scope, isinstance(result.globals, ReadOnlyChainMap) and len(result.globals._maps) == 2 and result.globals._maps[0] is namespace and result.globals._maps[1] == self.globals)",
         # block-scoped copy (block tag inside extends): arguments over the caller's whole scope, by design
-        "implies(block_scope and isinstance(result.globals, ReadOnlyChainMap), len(result.globals._maps) == 2 and result.globals._maps[0] == namespace and result.globals._maps[1] is self.scope)",
+        "implies(block_scope, isinstance(result.globals, ReadOnlyChainMap) and len(result.globals._maps) == 2 and result.globals._maps[0] is namespace and result.globals._maps[1] is self.scope)",
+        # the block stacks of an inheritance chain are visible to block-scoped copies only: an isolated copy (render, call) starts without any
+        "implies(block_scope, result.tag_namespace['extends'] is self.tag_namespace['extends'])",
+        "implies(not block_scope, result.tag_namespace['extends'] is not self.tag_namespace['extends'] and len(result.tag_namespace['extends']) == 0)",
         "implies(disabled_tags is not None, 'include' in result.disabled_tags)",
         "implies(disabled_tags is None, len(result.disabled_tags) == 0)",
     ],
